@@ -54,7 +54,14 @@ def cover(F, rep, rule, pass_name, fnpaths, universe, relevant, exempt, include_
 
     exempt: {"Adt::Variant.field": reason}. Returns (checked, unread list).
     """
-    reads = F.field_reads(fnpaths, include_write=include_write)
+    raw = F.field_reads(fnpaths, include_write=include_write)
+    # "read" = consumed (CONSUME engine below): a field that is only tested with is_some()/is_empty()/len(), or bound
+    # and never used, cannot influence what the pass produces from its content
+    cons = field_consumption(F, fnpaths)
+    reads = {k: [(p, ln) for (p, ln, _) in v] for k, v in cons.items()}
+    if include_write:
+        for k, v in raw.items():
+            reads.setdefault(k, v)
     rep.functions.update(fnpaths)
     unread = []
     n = 0
@@ -847,7 +854,8 @@ def walker_check(F, rep, rule, f, enum_adt, bear, child_adts, exempt=None, famil
     join = pdom.get(sw["block"], set()) - {sw["block"]}
     wname = f.path.split("::")[-1]
     family = {f.path} | {p for p in helpers} | {x.path for suf in family for x in F.find_fns(suffix=suf)}
-    reads = F.field_reads(set(helpers) | {p for q in family for p in body_and_closures(F, q)})
+    # "looks at" = consumes (CONSUME engine below): testing is_some()/is_empty() alone is not a visit
+    reads = field_consumption(F, set(helpers) | {p for q in family for p in body_and_closures(F, q)})
     for var in F.adts[enum_adt]["variants"]:
         v = var["name"]
         if v not in sw["explicit"]:
@@ -943,3 +951,173 @@ def walker_check(F, rep, rule, f, enum_adt, bear, child_adts, exempt=None, famil
                             "visiting any child (no recursive call, no loop over children): under some condition "
                             "the sub-terms of this node are skipped" % (wname, short(enum_adt), v),
                             file=f.file, line=sw["ln"], fn=f.path))
+
+
+# ---------------------------------------------------------------------------------------------------------------
+# CONSUME — a field is *consumed* when a value derived from it reaches something that depends on its content:
+# an argument of a call other than a pure inspection (is_some / is_empty / len ...), an operand of a comparison or
+# arithmetic, a switch on the value itself, a store, a return, or a read of / match on its payload.  Looking only at
+# whether an Option is Some, or whether a Vec is empty, is NOT consumption of what is inside.
+INSPECT_CALLS = ("::is_some", "::is_none", "::is_empty", "::len", "::is_ok", "::is_err")
+_WRAPPERS = ("core::option::Option<", "core::result::Result<")
+
+
+def _strip_ref(ty):
+    ty = ty.strip()
+    while ty.startswith("&"):
+        ty = ty[1:].lstrip()
+        if ty.startswith("mut "):
+            ty = ty[4:]
+        if ty.startswith("'"):
+            ty = ty.split(" ", 1)[1] if " " in ty else ty
+    return ty
+
+
+def _is_wrapper(ty):
+    return _strip_ref(ty).startswith(_WRAPPERS)
+
+
+def field_consumption(F, fnpaths):
+    """(adt, variant, field) -> list of (fnpath, line, how) consumption sites within the given functions."""
+    out = {}
+
+    def add(keys, p, ln, how):
+        for k in keys:
+            out.setdefault(k, []).append((p, ln, how))
+
+    for p in fnpaths:
+        f = F.fns[p]
+        # pass 1: which locals hold (a reference to / a copy of) exactly a field value: level 0; anything deeper or
+        # derived: level 1.  taint[l] = {triple: level}
+        taint = {}
+
+        def place_info(pl):
+            """-> list of (triple, deeper) for every field projection in pl, plus base taint."""
+            res = []
+            pr = pl["p"]
+            for i, e in enumerate(pr):
+                if e[0] != "f":
+                    continue
+                rest = pr[i + 1:]
+                deeper = any(x[0] == "f" for x in rest) or any(x[0] in ("idx", "cidx", "sub") for x in rest)
+                res.append(((e[1], e[2], e[3]), deeper, e[4] if len(e) > 4 else ""))
+            return res
+
+        def base_taint(pl):
+            t = taint.get(pl["l"])
+            if not t:
+                return {}
+            deeper = any(x[0] == "f" for x in pl["p"]) or any(x[0] in ("idx", "cidx", "sub") for x in pl["p"])
+            return {k: (1 if deeper else lvl) for k, lvl in t.items()}
+
+        def sources(pl):
+            """triple -> level for the value read from place pl"""
+            s = dict(base_taint(pl))
+            for k, deeper, _ in place_info(pl):
+                lvl = 1 if deeper else 0
+                s[k] = max(s.get(k, 0), lvl) if k in s else lvl
+            # only the innermost (last) field projection is "the field itself"; outer ones are being traversed
+            info = place_info(pl)
+            for k, deeper, _ in info[:-1]:
+                s[k] = 1
+            return s
+
+        changed = True
+        rounds = 0
+        while changed and rounds < 12:
+            changed = False
+            rounds += 1
+            for b in f.blocks:
+                for st in b["st"]:
+                    if st["s"] != "assign" or st["d"]["p"]:
+                        continue
+                    rv = st["rv"]
+                    src = {}
+                    if rv["r"] in ("ref", "rawptr", "cfd"):
+                        if rv.get("bk") == "fake":
+                            continue
+                        src = sources(rv["p"])
+                    elif rv["r"] in ("use", "cast"):
+                        pl = op_place(rv["o"])
+                        if pl is not None:
+                            src = sources(pl)
+                    elif rv["r"] == "agg":
+                        for o in rv["ops"]:
+                            pl = op_place(o)
+                            if pl is not None:
+                                for k, lvl in sources(pl).items():
+                                    src[k] = 1
+                    if not src:
+                        continue
+                    cur = taint.setdefault(st["d"]["l"], {})
+                    for k, lvl in src.items():
+                        if cur.get(k, -1) < lvl:
+                            cur[k] = lvl
+                            changed = True
+        # pass 2: sinks
+        for bi, b in enumerate(f.blocks):
+            for st in b["st"]:
+                if st["s"] != "assign":
+                    continue
+                rv = st["rv"]
+                ln = st.get("ln", f.line)
+                if rv["r"] == "discr":
+                    pl = rv["p"]
+                    s = sources(pl)
+                    if not s:
+                        continue
+                    # type being discriminated: the innermost field's type if the place ends at it, else the local's
+                    info = place_info(pl)
+                    tail_is_field = bool(info) and not info[-1][1] and pl["p"] and \
+                        all(x[0] == "deref" for x in pl["p"][max(i for i, e in enumerate(pl["p"]) if e[0] == "f") + 1:])
+                    if tail_is_field:
+                        ty = info[-1][2]
+                    elif not any(x[0] == "f" for x in pl["p"]):
+                        ty = f.local_ty(pl["l"])
+                    else:
+                        ty = ""
+                    for k, lvl in s.items():
+                        if lvl >= 1 or not _is_wrapper(ty):
+                            add([k], p, ln, "match on its value")
+                elif rv["r"] == "bin":
+                    for o in (rv["a"], rv["b"]):
+                        pl = op_place(o)
+                        if pl is not None:
+                            add(sources(pl).keys(), p, ln, "operand of %s" % rv["op"])
+                elif rv["r"] in ("un", "len"):
+                    pl = op_place(rv["o"]) if "o" in rv else rv.get("p")
+                    if pl is not None and rv["r"] == "un":
+                        add(sources(pl).keys(), p, ln, "operand of %s" % rv.get("op"))
+                if st["d"]["p"] or st["d"]["l"] == 0:
+                    # stored into a structure / returned
+                    srcs = {}
+                    if rv["r"] in ("ref", "rawptr", "cfd"):
+                        srcs = sources(rv["p"])
+                    else:
+                        for o in iter_operands_rv(rv):
+                            pl = op_place(o)
+                            if pl is not None:
+                                srcs.update(sources(pl))
+                    add(srcs.keys(), p, ln, "stored / returned")
+            t = b["term"]
+            ln = t.get("ln", f.line)
+            if t["t"] in ("call", "tailcall"):
+                g = callee_generic(t) or callee_name(t) or ""
+                inspect = g.endswith(INSPECT_CALLS)
+                for o in t["args"]:
+                    pl = op_place(o)
+                    if pl is None:
+                        continue
+                    for k, lvl in sources(pl).items():
+                        if inspect and lvl == 0:
+                            continue
+                        add([k], p, ln, "argument of %s" % (g.split("::")[-1] or "call"))
+            elif t["t"] == "switch":
+                pl = op_place(t["on"])
+                if pl is not None:
+                    add(sources(pl).keys(), p, ln, "branch on its value")
+            elif t["t"] == "yield":
+                pl = op_place(t["v"])
+                if pl is not None:
+                    add(sources(pl).keys(), p, ln, "yielded")
+    return out
